@@ -215,7 +215,7 @@ PROPS["C08"] = {
 }
 
 PROPS["C13"] = {
-    "lean": ["WsVerif.Props.C13", "WsVerif.Props.C05Ext", "WsVerif.Bridge.C13"],
+    "lean": ["WsVerif.Props.C13", "WsVerif.Props.C13History", "WsVerif.Props.C05Ext", "WsVerif.Bridge.C13"],
     "rule": "MessageState.SetBits / UnsetBits (+ SetBit / UnsetBit / IsCompressed) on all compressed x Fin x RSV(0..7) x OpCode(0..15); "
             "writer sequences of compressed / uncompressed messages with SetExtensions switches x 5 buffer sizes x both sides (also in the "
             "C06 random sequences); reader with the extension attached on a fragmented message with every RSV pattern on the first frame, the "
